@@ -60,7 +60,7 @@ def build_pdf(case):
                             BitsPerComponent=8), b"\x00\x40\x80\xff")
     fonts = {b"F1": W.R(10), b"F2": W.R(13)}
     forms = case.get("forms", [])
-    xobj = {b"Im0": W.R(12)}
+    xobj = {case.get("imgname", "Im0").encode("utf-8"): W.R(12)}
     for i, f in enumerate(forms):
         xobj[f["name"].encode("utf-8")] = W.R(30 + i)
     res = {b"Font": fonts, b"XObject": xobj}
@@ -97,7 +97,10 @@ def content_bytes(items, xobj):
             out.append(b"%s w %d %d m %d %d %d %d %d %d c S" % (str(it["lw"]).encode(), it["x"], it["y"], it["x"] + 10, it["y"] + 30,
                                                                it["x"] + 40, it["y"] - 5, it["x"] + it["w"], it["y"] + it["h"]))
         elif k == "image":
-            out.append(b"q %d 0 0 %d %d %d cm /Im0 Do Q" % (it["w"], it["h"], it["x"], it["y"]))
+            # the image is the first entry of the XObject dictionary
+            nm = next(iter(xobj))
+            out.append(b"q %d 0 0 %d %d %d cm /%s Do Q" % (it["w"], it["h"], it["x"], it["y"], b"".join(
+                b"#%02x" % c if W.name_needs_escape(c) else bytes([c]) for c in nm)))
         elif k == "form":
             out.append(b"/" + b"".join(b"#%02x" % c if W.name_needs_escape(c) else bytes([c]) for c in it["name"].encode("utf-8")) + b" Do")
     return b"\n".join(out)
@@ -296,14 +299,35 @@ def run_case(case):
                 return Outcome(classes, nt, fail="extract_text differs from extract_text_to_fp/layout tree; %s" % desc())
         return Outcome(classes, nt, sample={"alphabet": case["alphabet"][:8], "la": case["la"], "sink": sink, "len": len(want)})
     # ---- xml
+    imgdir = None
+    kw = {}
+    if case.get("imgdir"):
+        # images are exported as well: <image> then names the exported file in `src`
+        import tempfile
+
+        imgdir = tempfile.mkdtemp(prefix="c11img")
+        kw["output_dir"] = imgdir
+        classes.append("xml+image-export")
+    try:
+        return _xml_part(case, classes, nt, pdf, sink, codec, la, ref, desc, kw, imgdir)
+    finally:
+        if imgdir:
+            import shutil
+
+            shutil.rmtree(imgdir, ignore_errors=True)
+
+
+def _xml_part(case, classes, nt, pdf, sink, codec, la, ref, desc, kw, imgdir):
+    from pdfminer.high_level import extract_text_to_fp
+
     try:
         if sink == "str":
             fp = io.StringIO()
-            extract_text_to_fp(io.BytesIO(pdf), fp, output_type="xml", codec=None, laparams=la, strip_control=case["strip"])
+            extract_text_to_fp(io.BytesIO(pdf), fp, output_type="xml", codec=None, laparams=la, strip_control=case["strip"], **kw)
             data = fp.getvalue()
         else:
             fp = io.BytesIO()
-            extract_text_to_fp(io.BytesIO(pdf), fp, output_type="xml", codec=codec, laparams=la, strip_control=case["strip"])
+            extract_text_to_fp(io.BytesIO(pdf), fp, output_type="xml", codec=codec, laparams=la, strip_control=case["strip"], **kw)
             raw = fp.getvalue()
             try:
                 # expat only knows a few encodings by name: decode with the requested codec ourselves
@@ -324,6 +348,15 @@ def run_case(case):
     d = tree_diff(want, got)
     if d:
         return Outcome(classes, nt, fail="XML tree differs from the layout tree: %s; %s" % (d, desc()))
+    if imgdir:
+        import os
+
+        for el in root.iter("image"):
+            nt = True
+            src = el.get("src")
+            if src is None or not os.path.isfile(os.path.join(imgdir, src)):
+                return Outcome(classes, nt, fail="<image src=%r> does not name an exported file (%r); %s" % (
+                    src, sorted(os.listdir(imgdir)), desc()))
     if case.get("select_none"):
         # a page selection that matches nothing: the hierarchy has no page, the XML is still a well-formed document
         # with the (empty) root element, the text output is empty
@@ -415,6 +448,8 @@ def cases(draw):
         except UnicodeEncodeError:
             pass
     return {"alphabet": alphabet, "fontname": fontname, "forms": forms, "pages": pages, "output": output,
+            "imgname": draw(st.sampled_from(["Im0", "Im0", "Im&1", 'a<b"c', "x'y>z", "I m"])),
+            "imgdir": output == "xml" and draw(st.integers(0, 2)) == 0,
             "zero_widths": draw(st.booleans()), "select_none": draw(st.integers(0, 3)) == 0,
             "la": draw(st.sampled_from(["none", "default", "default", "all_texts", "flow_none", "vertical"])),
             "sink": draw(st.sampled_from(sinks)), "strip": strip if output == "xml" else False}
